@@ -51,6 +51,9 @@ class ValueGen:
         if name == "Int":
             return 500 + n
         if name == "Float":
+            if n % 7 == 3:
+                self.feats.add("value.float_integer_beyond_2_53")
+                return 2 ** 53 + 2 * n  # (representable as a double) an integer number is a Float value too; sixteen and more digits travel as a JSON number like any other
             return n + 0.25
         if name == "String":
             return self.rng.choice(["str#%d", "with \"quotes\" %d", "uni ☃ %d", "line\nbreak %d"]) % n
@@ -59,6 +62,9 @@ class ValueGen:
         if name == "Boolean":
             return n % 2 == 0
         gen = self.custom_scalar_values.get(name)
+        if gen is None and n % 5 == 2:
+            self.feats.add("value.custom_scalar_integer_beyond_2_63")
+            return 2 ** 63 + n  # an unconfigured scalar carries whatever JSON value the caller gives it, unchanged
         return gen(n) if gen else "cs-in#%d" % n
 
     def value(self, t, depth: int = 0, minimal: bool = False, top: bool = False) -> Any:
@@ -82,6 +88,9 @@ class ValueGen:
         rng = self.rng
         if isinstance(t, GraphQLList):
             n = 0 if minimal else rng.randrange(0, 4)
+            if not minimal and depth == 0 and isinstance(get_named_type(t), GraphQLInputObjectType) and self.n % 9 == 4:
+                n = 101 + self.n % 23  # a bulk call: more than a hundred input objects in one list
+                self.feats.add("value.list_100plus_input_objects")
             self.feats.add("value.list%d" % min(n, 2))
             items = [self.value(t.of_type, depth + 1, minimal) for _ in range(n)]
             if items and not isinstance(t.of_type, GraphQLNonNull) and rng.random() < 0.25:
